@@ -34,6 +34,7 @@ def oracle(prog, trace):
     out = []
     refs, obj_of, constructing = {}, {}, set()   # key -> count ; key -> live object ; keys under construction
     call = {}
+    recyclers = {}
     for l in trace:
         w = l.split()
         if w[0] == "call":
@@ -66,8 +67,15 @@ def oracle(prog, trace):
         if w[0] == "call" and w[2] == "release":
             k = int(w[3])
             refs[k] = max(0, refs.get(k, 0) - 1)
+            # a second recycling release while one is pending is demoted to a plain release by the cache
+            if w[4] == "1" and k in recyclers:
+                call[w[1]] = w[:4] + ["0"] + w[5:]
+            elif w[4] == "1":
+                recyclers[k] = w[1]
         if w[0] == "ret" and w[2] == "release":
             c = call[w[1]]
+            if recyclers.get(int(c[3])) == w[1]:
+                del recyclers[int(c[3])]
             if c[4] == "1" and refs.get(int(c[3]), 0) > 0:
                 out.append("recycling release(%s) returned while %d other holder(s) still have a reference" % (c[3], refs[int(c[3])]))
     return out
